@@ -1198,6 +1198,14 @@ package runtime
 // changes the slots slice, so a test on NArgs() implies the slot exists (used
 // by the arity obligations of the effect checker) and every index below the
 // arity is valid.
+// The slots, the etc pointer and the function of a Go continuation are set once
+// when it is built (NewGoCont) and cleared when it is recycled
+// ((*goContPool).release, after the function has returned): while a Go
+// function runs, calls with unknown effects do not change them.
+//@ stable GoCont.args written-by NewGoCont, (*goContPool).release
+//@ stable GoCont.etc written-by NewGoCont, (*goContPool).release
+//@ stable GoCont.GoFunction written-by NewGoCont, (*goContPool).release
+
 //@ macro slotsOK(c) = c != nil && 0 <= c.nArgs && c.nArgs <= len(c.args)
 
 //@ func (*GoCont).Push
@@ -1297,3 +1305,158 @@ package runtime
 //@   requires c != nil
 //@   modifies nothing
 //@   ensures c.etc == nil ==> len(result0) == 0
+
+// ---------------------------------------------------------------------------
+// Runtime API as seen from library code (C04 sweep of the library)
+// ---------------------------------------------------------------------------
+// The library functions are verified against these contracts: what they must
+// establish is stated as `requires` (a non-nil table / userdata / thread, an
+// argument index below the number of slots); what they may rely on is assumed
+// here and listed: a Value of a reference type holds a non-nil reference
+// (values are only built by TableValue(t) etc. from live objects), a Go
+// continuation always has a next continuation, and the table implementation
+// itself does not panic on a well-formed table (its own contracts are C03's).
+//@ stable GoCont.next written-by NewGoCont, (*goContPool).release
+
+//@ func (Value).TryTable
+//@   trusted
+//@   modifies nothing
+//@   ensures result1 ==> result0 != nil
+
+//@ func (Value).AsTable
+//@   trusted
+//@   modifies nothing
+//@   ensures result0 != nil
+
+//@ func (Value).TryUserData
+//@   trusted
+//@   modifies nothing
+//@   ensures result1 ==> result0 != nil
+
+//@ func (Value).AsUserData
+//@   trusted
+//@   modifies nothing
+//@   ensures result0 != nil
+
+//@ func (Value).TryThread
+//@   trusted
+//@   modifies nothing
+//@   ensures result1 ==> result0 != nil
+
+//@ func (Value).TryClosure
+//@   trusted
+//@   modifies nothing
+//@   ensures result1 ==> result0 != nil
+
+//@ func (*GoCont).TableArg
+//@   prop C04
+//@   arith int
+//@   requires c != nil && 0 <= n && n < len(c.args)
+//@   modifies nothing
+//@   ensures result1 == nil ==> result0 != nil
+
+//@ func (*GoCont).UserDataArg
+//@   prop C04
+//@   arith int
+//@   requires c != nil && 0 <= n && n < len(c.args)
+//@   modifies nothing
+//@   ensures result1 == nil ==> result0 != nil
+
+//@ func (*GoCont).ThreadArg
+//@   prop C04
+//@   arith int
+//@   requires c != nil && 0 <= n && n < len(c.args)
+//@   modifies nothing
+//@   ensures result1 == nil ==> result0 != nil
+
+//@ func (*GoCont).ClosureArg
+//@   prop C04
+//@   arith int
+//@   requires c != nil && 0 <= n && n < len(c.args)
+//@   modifies nothing
+//@   ensures result1 == nil ==> result0 != nil
+
+//@ func (*GoCont).BoolArg
+//@   prop C04
+//@   arith int
+//@   requires c != nil && 0 <= n && n < len(c.args)
+//@   modifies nothing
+
+//@ func (*GoCont).FloatArg
+//@   prop C04
+//@   arith int
+//@   requires c != nil && 0 <= n && n < len(c.args)
+//@   modifies nothing
+
+//@ func (*GoCont).CallableArg
+//@   prop C04
+//@   arith int
+//@   requires c != nil && 0 <= n && n < len(c.args)
+//@   modifies nothing
+
+//@ func (*Table).Get
+//@   trusted
+//@   requires t != nil
+//@   modifies nothing
+
+//@ func (*Table).Set
+//@   trusted
+//@   requires t != nil
+//@   modifies everything()
+
+//@ func (*Table).Reset
+//@   trusted
+//@   requires t != nil
+//@   modifies everything()
+
+//@ func (*Table).Len
+//@   trusted
+//@   requires t != nil
+//@   modifies nothing
+
+//@ func (*Table).Next
+//@   trusted
+//@   requires t != nil
+//@   modifies nothing
+
+//@ func (*Table).Metatable
+//@   prop C04
+//@   arith int
+//@   requires t != nil
+//@   modifies nothing
+
+//@ func (*Table).SetMetatable
+//@   prop C04
+//@   arith int
+//@   requires t != nil
+//@   modifies t.meta
+
+//@ func (*UserData).Value
+//@   prop C04
+//@   arith int
+//@   requires d != nil
+//@   modifies nothing
+
+//@ func (*UserData).Metatable
+//@   prop C04
+//@   arith int
+//@   requires d != nil
+//@   modifies nothing
+
+//@ func NewTerminationWith
+//@   trusted
+//@   modifies everything()
+//@   exits ContextTerminationError
+//@   ensures result0 != nil
+
+//@ func (*Termination).Etc
+//@   prop C04
+//@   arith int
+//@   requires c != nil
+//@   modifies nothing
+
+//@ func (*Thread).IsMain
+//@   prop C04
+//@   arith int
+//@   requires t != nil
+//@   modifies nothing
